@@ -61,7 +61,7 @@ def run(ctx):
         cases = [("corpus", S.corpus_expr(l)) for l in S.load_corpus("C04")]
         cases += dense_cases(ctx)
         q = ctx.tier == "quick"
-        cases += S.expr_cases(ctx, 4000 if q else 80000, 500 if q else 10000, 0, 0, 0)
+        cases += S.expr_cases(ctx, 4000 if q else 400000, 500 if q else 50000, 0, 0, 0)
     recs = S.parse_run(ctx, cases)
     node_kinds = {}
     f16_seen = None
